@@ -14,6 +14,11 @@ class OneKeyDict:
     def pyvc_contains(self, E, x):
         return self.has
 
+    def pyvc_getitem(self, E, i, st):
+        if E.feasible(st, z3.Not(self.has)):
+            yield ("raise", Exc(KeyError), st.assume(z3.Not(self.has)))
+        yield ("val", self.value, st.assume(self.has))
+
     def pyvc_attr(self, E, attr, st):
         if attr == "pop":
             yield ("val", _Pop(self), st)
@@ -33,8 +38,12 @@ class _Pop:
         if already:
             raise Unsupported("second pop")
         if len(pos) == 1:
-            yield ("raise", Exc(KeyError), st.assume(z3.Not(d.has)))
-        yield ("val", d.value, st.assume(d.has).with_ghost(d.gname, True))
+            if E.feasible(st, z3.Not(d.has)):
+                yield ("raise", Exc(KeyError), st.assume(z3.Not(d.has)))
+        elif E.feasible(st, z3.Not(d.has)):
+            yield ("val", pos[1], st.assume(z3.Not(d.has)))
+        if E.feasible(st, d.has):
+            yield ("val", d.value, st.assume(d.has).with_ghost(d.gname, True))
 
 
 class KeySet:
@@ -48,24 +57,47 @@ class KeySet:
 @register
 class DeleteTag(Contract):
     fn = "gfapy/line/common/field_data.py::FieldData.delete"
-    props = ("C05", "C20")
+    props = ("C05", "C20", "C09")
     doc = ("delete(tag): when the tag is defined its value is removed from _data and its datatype from _datatype (when recorded) and the value is "
-           "returned; when it is not defined nothing is touched and None is returned; no KeyError")
+           "returned; when it is not defined nothing is touched and None is returned; no KeyError. (C09) when the tag is the identifier of a line "
+           "that belongs to a Gfa (ID of a link / containment) the removal goes through the renaming path (_set_existing_field(tag, None): "
+           "unregister, drop, register again), never a bare pop that would leave the registry stale")
 
     def cases(self, ctx):
         g = ctx.gfapy
-        has_tag, has_dt = z3.Bool("tag_defined"), z3.Bool("datatype_recorded")
-        tag = z3.String("tagname")
-        val = Obj(None, "value")
-        s = Obj(g.Line, "line")
-        heap = {s.oid: {"_data": OneKeyDict(has_tag, "popped_value", val), "_datatype": OneKeyDict(has_dt, "popped_datatype", "dt")}, val.oid: {}}
-        models = {g.Line.tagnames.fget: const_model(lambda self_: KeySet(has_tag))}
-        def post(k, v, st):
-            if k == "raise":
-                return z3.BoolVal(False)
-            pv, pd = bool(st.ghost.get("popped_value")), bool(st.ghost.get("popped_datatype"))
-            returned_value = isinstance(v, Obj) and v.oid == val.oid
-            return z3.And(z3.BoolVal(pv) == has_tag, z3.BoolVal(pd) == z3.And(has_tag, has_dt), z3.BoolVal(returned_value) == has_tag, z3.BoolVal(v is None) == z3.Not(has_tag))
-        return [Case("tag", [s, tag], post, heap=heap, models=models, symbols=dict(tag_defined=has_tag, datatype_recorded=has_dt),
-                     replay=lambda w: {"target": "bounded.replay_helpers:delete_tag_cases"},
-                     confirm=lambda w, out: out.get("kind") != "return" or out.get("value") is not True, expect_paths=3)]
+        out = []
+        for cls, label in ((g.line.segment.GFA1, "segment"), (g.line.edge.Link, "link"), (g.line.edge.Containment, "containment"), (g.line.edge.GFA2, "edge2")):
+            has_tag, has_dt = z3.Bool("tag_defined"), z3.Bool("datatype_recorded")
+            connected = z3.Bool("connected")
+            tag, ptag = enum("tagname", ["ID", "xx"])
+            val = Obj(None, "value")
+            gfa = Obj(g.Gfa, "gfa")
+            s = Obj(cls, "line")
+            heap = {s.oid: {"_data": OneKeyDict(has_tag, "popped_value", val), "_datatype": OneKeyDict(has_dt, "popped_datatype", "dt"), "_gfa": Opt(z3.Not(connected), gfa)},
+                    val.oid: {}, gfa.oid: {}}
+            def m_set_existing(E, st, pos, kw):
+                self_, fn_, v_ = pos[:3]
+                yield ("val", None, [], st.with_ghost("renamed", (fn_, v_)))
+            models = {g.Line.tagnames.fget: const_model(lambda self_, has_tag=has_tag: KeySet(has_tag)),
+                      ctx.fn("gfapy/line/common/field_data.py::FieldData._set_existing_field"): m_set_existing}
+            is_name = z3.BoolVal(False)
+            if cls.STORAGE_KEY == "name" and getattr(cls, "NAME_FIELD", None) in ("ID",):
+                is_name = z3.And(connected, tag == sv(cls.NAME_FIELD))
+            def post(k, v, st, has_tag=has_tag, has_dt=has_dt, is_name=is_name, val=val, tag=tag):
+                if k == "raise":
+                    return z3.BoolVal(False)
+                pv, pd = bool(st.ghost.get("popped_value")), bool(st.ghost.get("popped_datatype"))
+                ren = st.ghost.get("renamed")
+                renamed_to_none = ren is not None and ren[1] is None
+                ren_field_ok = z3.BoolVal(False) if ren is None else (S(ren[0]) == tag)
+                returned_value = isinstance(v, Obj) and v.oid == val.oid
+                via_rename = z3.And(has_tag, is_name)
+                return z3.And(z3.BoolVal(returned_value) == has_tag, z3.BoolVal(v is None) == z3.Not(has_tag),
+                              z3.If(via_rename, z3.And(z3.BoolVal(renamed_to_none), ren_field_ok, z3.BoolVal(not pv)),
+                                    z3.And(z3.BoolVal(ren is None), z3.BoolVal(pv) == has_tag)),
+                              z3.BoolVal(pd) == z3.And(has_tag, has_dt))
+            out.append(Case(label, [s, tag], post, pre=[ptag], heap=heap, models=models,
+                            symbols=dict(tag_defined=has_tag, datatype_recorded=has_dt, connected=connected, tagname=tag),
+                            replay=lambda w: {"target": "bounded.replay_helpers:delete_tag_cases"},
+                            confirm=lambda w, out: out.get("kind") != "return" or out.get("value") is not True, expect_paths=3))
+        return out
